@@ -150,6 +150,9 @@ impl Debugger {
 
     pub(super) fn increment_instruction_count(&mut self) {
         self.instruction_count += 1;
+        // The instruction at the breakpoint which paused execution is about to be executed. If
+        // control comes straight back to the same address, the breakpoint must fire again
+        self.current_breakpoint = None;
     }
 
     /// Read and execute user commands, until an [`Action`] is raised.
